@@ -224,7 +224,7 @@ func (c *RefClient) addResources(rs *resourceSet) {
 		}
 		c.Store[rid] = &CRes{Kind: "model", M: m, HandedAt: c.nframes}
 		c.Store[rid].Snap0 = snapSeq(c.Store[rid])
-		c.EventLog = append(c.EventLog, ClientEvent{RID: rid, Event: "+hand", Snap: c.Store[rid], Frame: c.nframes})
+		c.EventLog = append(c.EventLog, ClientEvent{RID: rid, Event: "+hand", Snap: c.Store[rid], Frame: c.nframes, At: c.curAt})
 	}
 	for rid, l := range rs.Collections {
 		if _, ok := c.Store[rid]; ok {
@@ -232,7 +232,7 @@ func (c *RefClient) addResources(rs *resourceSet) {
 		}
 		c.Store[rid] = &CRes{Kind: "collection", C: l, HandedAt: c.nframes}
 		c.Store[rid].Snap0 = snapSeq(c.Store[rid])
-		c.EventLog = append(c.EventLog, ClientEvent{RID: rid, Event: "+hand", Snap: c.Store[rid], Frame: c.nframes})
+		c.EventLog = append(c.EventLog, ClientEvent{RID: rid, Event: "+hand", Snap: c.Store[rid], Frame: c.nframes, At: c.curAt})
 	}
 	for rid, e := range rs.Errors {
 		var ee struct {
